@@ -578,6 +578,10 @@ func checkC19(c *Ctx) {
 	c.ruleSharedScratch("E.scratch", readOnlyAPI)
 	c.R.Floor("E.pure", 24)
 	c.ruleRecycle("P.recycle", nil)
+	// repeatable output: nothing is produced in map iteration order, and the padding
+	// handed out is not shared memory that listing signatures writes into
+	c.ruleMapOrder("E.maporder", readOnlyAPI)
+	c.rulePadFresh("E.padshared")
 }
 
 // rulePure: each listed read-only operation writes nothing reachable from its
@@ -804,5 +808,85 @@ func (c *Ctx) ruleSharedScratch(rule string, specs []string) {
 		done[name(fn)] = true
 		c.R.Check(bad == "", rule, name(fn), "scratch", c.Pos(fn.Pos()), "no byte buffer kept on the object is written by anything the read-only operation reaches (callbacks from io.Copy included)",
 			bad+": concurrent calls share that memory")
+	}
+}
+
+// ruleMapOrder (E.maporder): what a read-only operation returns or writes does
+// not depend on the iteration order of a map. A `for … range m` over a map
+// whose body emits output (writes to a stream or buffer, appends to a result)
+// produces the same elements in a different order from call to call.
+func (c *Ctx) ruleMapOrder(rule string, specs []string) {
+	n := 0
+	seen := map[*ssa.Function]bool{}
+	for _, spec := range specs {
+		fn := c.FnOpt(spec)
+		if fn == nil {
+			continue
+		}
+		for _, g := range c.cone(fn) {
+			for _, f := range withAnon(g) {
+				if seen[f] {
+					continue
+				}
+				seen[f] = true
+				f := f
+				instrsOf(f, func(i ssa.Instruction) {
+					rg, ok := i.(*ssa.Range)
+					if !ok {
+						return
+					}
+					if _, isMap := rg.X.Type().Underlying().(*types.Map); !isMap {
+						return
+					}
+					n++
+					// the loop: blocks reachable from the Next instruction's block that can reach it again
+					var next *ssa.Next
+					for _, r := range *rg.Referrers() {
+						if nx, isN := r.(*ssa.Next); isN {
+							next = nx
+						}
+					}
+					emits := ""
+					if next != nil {
+						fwd, _ := ir.Reach(f, next.Block(), nil)
+						for _, b := range f.Blocks {
+							if !fwd[b.Index] {
+								continue
+							}
+							back, _ := ir.Reach(f, b, nil)
+							if !back[next.Block().Index] {
+								continue
+							}
+							for _, in := range b.Instrs {
+								call, isC := in.(ssa.CallInstruction)
+								if !isC {
+									continue
+								}
+								id := ir.CallID(call)
+								switch {
+								case id == "builtin.append", id == "encoding/binary.Write", strings.HasSuffix(id, ".Write"), strings.HasSuffix(id, ".WriteString"), strings.HasSuffix(id, ".WriteByte"):
+									emits = c.IPos(in)
+								case call.Common().IsInvoke() && strings.HasPrefix(call.Common().Method.Name(), "Write"):
+									emits = c.IPos(in)
+								default:
+									if callee := ir.Callee(call); callee != nil && c.P.InLib(callee) {
+										for _, a := range ir.CallArgs(call) {
+											if isStreamType(ir.StripIface(a).Type()) {
+												emits = c.IPos(in)
+											}
+										}
+									}
+								}
+							}
+						}
+					}
+					c.R.Check(emits == "", rule, name(f), "range-map", c.IPos(rg), "output is not produced in map iteration order",
+						"the loop over a map emits output at "+emits+": Go randomises map iteration, so two calls on the same value produce differently ordered bytes")
+				})
+			}
+		}
+	}
+	if n == 0 {
+		c.R.Okf(rule, "-", "scan", "-", "no loop over a map in the call cones of the read-only operations")
 	}
 }
